@@ -67,6 +67,8 @@ def _fn_at(gen_src_fns, line_starts, line):
 
 
 def run_unit(name, keep_dir=None, seed=None, rlimit=None, extra_args=()):
+    if rlimit is None:
+        rlimit = 40
     res = UnitResult(name)
     t0 = time.time()
     try:
@@ -85,7 +87,7 @@ def run_unit(name, keep_dir=None, seed=None, rlimit=None, extra_args=()):
     if rlimit:
         cmd += ["--rlimit", str(rlimit)]
     if seed is not None:
-        cmd += ["-V", "smt-option=smt.random_seed=%d" % (seed % 1000)]
+        cmd += ["--smt-option", "smt.random_seed=%d" % (seed % 1000)]
     cmd += list(extra_args)
     cmd += ["--", "--error-format=json"]
     res.cmd = " ".join(cmd)
@@ -142,10 +144,10 @@ def run_unit(name, keep_dir=None, seed=None, rlimit=None, extra_args=()):
                 continue
             o = gen.origin(l)
             fl.gen_lines.append(l)
-            if fl.fn is None:
-                fl.fn = _fn_at(fns, None, l)
             if o is None:
                 continue
+            if fl.fn is None and o['kind'] in ('repo', 'ann'):
+                fl.fn = gen.fn_of(o)
             # a span may cover several lines (a multi-line clause): look for a marker on any of them
             hit = None
             for ll in range(l, (sp.get('line_end') or l) + 1):
@@ -155,7 +157,7 @@ def run_unit(name, keep_dir=None, seed=None, rlimit=None, extra_args=()):
                     break
             if hit is None and o['kind'] == 'ann':
                 hit = o
-            if hit is not None and hit['kind'] in ('ann', 'prelude') and 'clause' in hit:
+            if hit is not None and 'clause' in hit:
                 ent = (hit['clause'], hit.get('tags', []), hit['text'])
                 if ent not in fl.clauses:
                     fl.clauses.append(ent)
